@@ -310,6 +310,17 @@ func aberrantAppendField(md *filedesc.Message, goType reflect.Type, tag, tagKey,
 	fd.L0.Parent = md
 	fd.L0.Index = n
 
+	// The tag may lack the "proto3" token (it was only added to generated code
+	// in 2018) although the message was recognized as proto3 from its Go field
+	// types. The field features must follow the syntax the field now reports,
+	// otherwise a non-pointer scalar field claims explicit presence.
+	// An explicit "packed" token keeps its meaning.
+	packed := fd.L1.EditionFeatures.IsPacked
+	fd.L1.EditionFeatures = md.L1.EditionFeatures
+	if packed {
+		fd.L1.EditionFeatures.IsPacked = true
+	}
+
 	if fd.L1.EditionFeatures.IsPacked {
 		fd.L1.Options = func() protoreflect.ProtoMessage {
 			opts := descopts.Field.ProtoReflect().New()
